@@ -45,7 +45,9 @@ def plan(tier, seed):
                     jobs.append(j)
     jobs.append(ch("C15", "vf/pyshim/h_mapzip.py", "h_map_zip", t, ["core.read_row_group_arrays", "schema._is_map_like",
                                                                   "schema.SchemaHelper"]))
-    for h in ("h_levels", "h_list_shape", "h_map_shape"):
+    jobs.append(ch("C15", "vf/pyshim/h_page.py", "h_page_v1_nested", t, ["core.read_data_page", "core.read_rep",
+                                                                        "core.read_def"]))
+    for h in ("h_levels", "h_levels_two_columns", "h_list_shape", "h_map_shape"):
         jobs.append(ch("C15", "vf/pyshim/h_schema.py", h, t, ["schema.SchemaHelper", "schema._is_list_like",
                                                              "schema._is_map_like"]))
     extra = dict(
